@@ -168,6 +168,38 @@ impl<'a> R<'a> {
                 }
             }
         }
+        if let Expr::MethodCall(mc) = e {
+            if let Some(spec) = self.opts.get("mrename") {
+                for ent in spec.split(',') {
+                    if let Some((from, to)) = ent.split_once("=>") {
+                        if mc.method == from.trim() {
+                            self.note(format!("R8 trait method `.{}()` -> prelude trait method `.{}()` (same dispatch by expected type)", from.trim(), to.trim()));
+                            let args: Vec<String> = mc.args.iter().map(|a| self.expr(a)).collect();
+                            return Some(format!("{}.{}({})", self.expr(&mc.receiver), to.trim(), args.join(", ")));
+                        }
+                    }
+                }
+            }
+            if let Some(spec) = self.opts.get("mcall") {
+                let recv_txt = norm(self.verb(mc.receiver.span()));
+                let is_tuple = matches!(&*mc.receiver, Expr::Tuple(_));
+                for ent in spec.split(';') {
+                    if let Some((lhs, f)) = ent.split_once("=>") {
+                        if let Some((rc, m)) = lhs.trim().rsplit_once('.') {
+                            let rc = norm(rc);
+                            if mc.method == m.trim() && (rc == recv_txt || (rc == "(tuple)" && is_tuple) || rc == "*") {
+                                self.note(format!("R8 method call `{}.{}` -> prelude/extracted function `{}`", rc, m.trim(), f.trim()));
+                                let mut args = vec![self.expr(&mc.receiver)];
+                                for a in mc.args.iter() {
+                                    args.push(self.expr(a));
+                                }
+                                return Some(format!("{}({})", f.trim(), args.join(", ")));
+                            }
+                        }
+                    }
+                }
+            }
+        }
         if let Expr::Index(ix) = e {
             if let Some(target) = self.opts.get("index_call") {
                 if target.split('|').any(|t| norm(t) == norm(self.verb(ix.expr.span()))) {
@@ -228,6 +260,21 @@ impl<'r, 'a, 'ast> Visit<'ast> for Coll<'r, 'a> {
             visit::visit_type(self, t)
         }
     }
+    fn visit_path_segment(&mut self, seg: &'ast syn::PathSegment) {
+        // R9b: type-name substitution (prelude stand-ins for opaque crate types)
+        if let Some(spec) = self.r.opts.get("tysubst") {
+            let id = seg.ident.to_string();
+            for ent in spec.split(';') {
+                if let Some((from, to)) = ent.split_once("=>") {
+                    if from.trim() == id {
+                        self.edits.push((range(seg.ident.span()), to.trim().to_string()));
+                        self.r.note(format!("R9 type name `{}` -> prelude stand-in `{}`", from.trim(), to.trim()));
+                    }
+                }
+            }
+        }
+        visit::visit_path_segment(self, seg)
+    }
     fn visit_receiver(&mut self, rc: &'ast syn::Receiver) {
         // R1: `mut self` -> `self` (+ `let mut self_ = self;` inserted by render_fn)
         if rc.reference.is_none() && rc.mutability.is_some() && rc.colon_token.is_none() {
@@ -235,8 +282,55 @@ impl<'r, 'a, 'ast> Visit<'ast> for Coll<'r, 'a> {
             self.r.note("R1 mut-self");
         }
     }
-    fn visit_expr_closure(&mut self, c: &'ast syn::ExprClosure) {
-        visit::visit_expr_closure(self, c)
+    fn visit_expr_match(&mut self, m: &'ast syn::ExprMatch) {
+        // R4: fixed-arity slice patterns on a tuple scrutinee component
+        if self.r.opts.has_rw("slicepat") {
+            if let Expr::Tuple(t) = &*m.expr {
+                for (k, comp) in t.elems.iter().enumerate() {
+                    let mut arity: Option<usize> = None;
+                    let mut consistent = true;
+                    for arm in &m.arms {
+                        let mut alts: Vec<&Pat> = vec![];
+                        flatten_or(&arm.pat, &mut alts);
+                        for a in alts {
+                            if let Pat::Tuple(pt) = a {
+                                if let Some(Pat::Slice(ps)) = pt.elems.iter().nth(k) {
+                                    let n = ps.elems.len();
+                                    if ps.elems.iter().any(|p| matches!(p, Pat::Rest(_))) {
+                                        consistent = false;
+                                    }
+                                    match arity {
+                                        None => arity = Some(n),
+                                        Some(x) if x != n => consistent = false,
+                                        _ => {}
+                                    }
+                                }
+                            }
+                        }
+                    }
+                    if let Some(n) = arity {
+                        if !consistent || n == 0 || n > 2 {
+                            self.r.err("unsupported slice patterns (mixed arity or rest pattern)");
+                        } else {
+                            self.r.note(format!("R4 slice pattern of arity {} -> qx_slice{}() + Some(..) pattern", n, n));
+                            self.edits.push((range(comp.span()), format!("qx_slice{}({})", n, self.r.expr(comp))));
+                        }
+                    }
+                }
+            }
+        }
+        visit::visit_expr_match(self, m)
+    }
+    fn visit_pat(&mut self, p: &'ast Pat) {
+        if let Pat::Slice(ps) = p {
+            if self.r.opts.has_rw("slicepat") {
+                let parts: Vec<String> = ps.elems.iter().map(|q| self.r.pat(q)).collect();
+                let txt = if parts.len() == 1 { format!("Some({})", parts[0]) } else { format!("Some(({}))", parts.join(", ")) };
+                self.edits.push((range(p.span()), txt));
+                return;
+            }
+        }
+        visit::visit_pat(self, p)
     }
 }
 
@@ -257,6 +351,18 @@ impl<'a> R<'a> {
             }
         }
         None
+    }
+}
+
+fn flatten_or<'p>(p: &'p Pat, out: &mut Vec<&'p Pat>) {
+    match p {
+        Pat::Or(o) => {
+            for c in &o.cases {
+                flatten_or(c, out)
+            }
+        }
+        Pat::Paren(pp) => flatten_or(&pp.pat, out),
+        other => out.push(other),
     }
 }
 
@@ -494,6 +600,7 @@ fn main() {
     }
     let repo = &args[1];
     let tmpl = std::fs::read_to_string(&args[2]).unwrap_or_else(|e| die(2, &format!("cannot read template: {}", e)));
+    let tmpl = expand_includes(&tmpl, std::path::Path::new(&args[2]).parent().unwrap(), 0);
     let mut files: HashMap<String, FileCtx> = HashMap::new();
     let mut out = String::new();
     let mut report = Report { items: vec![] };
@@ -633,6 +740,25 @@ fn main() {
         }
         std::process::exit(2);
     }
+}
+
+/// `//@include <relative path>`: textual inclusion (shared preludes), relative to the including file
+fn expand_includes(t: &str, dir: &std::path::Path, depth: usize) -> String {
+    if depth > 8 {
+        die(2, "include depth");
+    }
+    let mut out = String::new();
+    for l in t.lines() {
+        if let Some(p) = l.trim_start().strip_prefix("//@include ") {
+            let path = dir.join(p.trim());
+            let inc = std::fs::read_to_string(&path).unwrap_or_else(|e| die(2, &format!("cannot include {}: {}", path.display(), e)));
+            out.push_str(&expand_includes(&inc, path.parent().unwrap(), depth + 1));
+        } else {
+            out.push_str(l);
+            out.push('\n');
+        }
+    }
+    out
 }
 
 /// split `file :: impl X as Y :: name key=v key2=v2` into selector and kv parts: kv part starts at the
